@@ -309,8 +309,10 @@ func (e *env) traceOf(marker string) []string {
 	return out
 }
 
-func newEnv(cfg string, thr int) (*env, error) {
-	cl, err := simredis.NewCluster(3, 0)
+func newEnv(cfg string, thr int) (*env, error) { return newEnvN(cfg, thr, 3) }
+
+func newEnvN(cfg string, thr, masters int) (*env, error) {
+	cl, err := simredis.NewCluster(masters, 0)
 	if err != nil {
 		return nil, err
 	}
